@@ -287,6 +287,80 @@ def search(kind, tier='quick', limit=None):
     return dict(reproduced=False, level='api', backend=kind, points=len(points), tried=tried, known_sites=known_sites, untracked=untracked)
 
 
+GROUP = r"""
+import json, logging, os, signal, sys, tempfile, threading, time
+import labtech
+logging.getLogger('labtech').setLevel(logging.CRITICAL)
+MARKS = sys.argv[2]
+
+@labtech.task
+class Job:
+    n: int
+    secs: float = 1.2
+    def run(self):
+        open(os.path.join(MARKS, f'start-{self.n}'), 'w').close()
+        time.sleep(self.secs)
+        open(os.path.join(MARKS, f'end-{self.n}'), 'w').close()
+        return self.n
+
+def ctrl_c():
+    # what a terminal does on Ctrl-C: SIGINT to EVERY process of the foreground group (the caller and all its workers), once,
+    # as soon as both workers are executing
+    t0 = time.time()
+    while time.time() - t0 < 20 and len([f for f in os.listdir(MARKS) if f.startswith('start-')]) < 2:
+        time.sleep(0.02)
+    time.sleep(0.15)
+    os.killpg(os.getpgrp(), signal.SIGINT)
+
+if __name__ == '__main__':
+    backend = sys.argv[1]
+    with tempfile.TemporaryDirectory() as d:
+        lab = labtech.Lab(storage=d, runner_backend=backend, max_workers=2)
+        tasks = [Job(i) for i in range(4)]
+        threading.Thread(target=ctrl_c, daemon=True).start()
+        out = dict(raised=None)
+        try:
+            lab.run_tasks(tasks, disable_progress=True, disable_top=True)
+        except BaseException as ex:
+            out['raised'] = type(ex).__name__
+        started = sorted(int(f.split('-')[1]) for f in os.listdir(MARKS) if f.startswith('start-'))
+        ended = sorted(int(f.split('-')[1]) for f in os.listdir(MARKS) if f.startswith('end-'))
+        out.update(started=started, ended=ended, cached=[t.n for t in tasks if lab.is_cached(t)])
+        print(json.dumps(out))
+"""
+
+
+def group_sigint(kind):
+    """A REAL Ctrl-C: SIGINT delivered once to the whole process group while two tasks execute in worker processes.  The
+    executing tasks finish and are cached, nothing new is started, run_tasks raises KeyboardInterrupt."""
+    import subprocess
+    top = tempfile.mkdtemp(prefix='labtech-c14g-')
+    try:
+        script = os.path.join(top, 'c14_group.py')
+        open(script, 'w').write(GROUP)
+        marks = os.path.join(top, 'marks')
+        os.mkdir(marks)
+        try:
+            cp = subprocess.run([sys.executable, script, kind, marks], capture_output=True, text=True, timeout=60, start_new_session=True)
+        except subprocess.TimeoutExpired:
+            return f'{kind}: one SIGINT to the process group while two tasks were executing: run_tasks had not returned after 60 s'
+        lines = [ln for ln in cp.stdout.splitlines() if ln.startswith('{')]
+        if not lines:
+            return None if cp.returncode in (-2, 130) and not cp.stdout else f'{kind}: group SIGINT scenario produced no report (exit {cp.returncode}): {cp.stderr[-300:]}'
+        out = json.loads(lines[-1])
+        if len(out['started']) < 2:
+            return None          # the interrupt came before two workers were executing: nothing to judge
+        if out['raised'] != 'KeyboardInterrupt':
+            return f'{kind}: one SIGINT to the process group: run_tasks ended with {out["raised"]} instead of KeyboardInterrupt'
+        if out['ended'] != out['started'] or sorted(out['cached']) != out['started']:
+            return (f'{kind}: one SIGINT to the process group (a terminal Ctrl-C) while tasks {out["started"]} were executing: tasks that ran to their end {out["ended"]}, '
+                    f'cached {sorted(out["cached"])} -- every executing task must be allowed to finish and be cached')
+        return None
+    finally:
+        import shutil
+        shutil.rmtree(top, ignore_errors=True)
+
+
 def main():
     ap = argparse.ArgumentParser()
     ap.add_argument('--obligation', default='')
@@ -319,6 +393,13 @@ def main():
                                           f'e.g. {", ".join(res["known_sites"][:4])}) leaves an entry that is reported as cached but cannot be loaded'))
             if res.get('reproduced'):
                 break
+        if not res.get('reproduced') and not a.backend:
+            for kind in (('fork', 'spawn') if not a.obligation or 'subprocess_func' in a.obligation or 'SIGINT' in a.obligation else ()):
+                why = group_sigint(kind)
+                runs.append(f'{kind}: one real SIGINT to the whole process group while two workers execute')
+                if why:
+                    res = dict(reproduced=True, level='api', backend=kind, summary=why)
+                    break
     except Exception:
         res = dict(reproduced=False, error=traceback.format_exc()[-1500:])
     if a.obligation:
